@@ -16,11 +16,11 @@ func Int63n(n int64) int64 {
 	}
 	return int64(rt.RandUint64() % uint64(n))
 }
-func Int63() int64     { return int64(rt.RandUint64() >> 1) }
-func Int() int         { return int(rt.RandUint64() >> 1) }
-func Int31n(n int32) int32 { return int32(rt.RandUint64() % uint64(n)) }
-func Uint32() uint32   { return uint32(rt.RandUint64()) }
-func Uint64() uint64   { return rt.RandUint64() }
-func Float64() float64 { return float64(rt.RandUint64()>>11) / (1 << 53) }
-func Seed(int64)       {}
+func Int63() int64               { return int64(rt.RandUint64() >> 1) }
+func Int() int                   { return int(rt.RandUint64() >> 1) }
+func Int31n(n int32) int32       { return int32(rt.RandUint64() % uint64(n)) }
+func Uint32() uint32             { return uint32(rt.RandUint64()) }
+func Uint64() uint64             { return rt.RandUint64() }
+func Float64() float64           { return float64(rt.RandUint64()>>11) / (1 << 53) }
+func Seed(int64)                 {}
 func Read(p []byte) (int, error) { return rt.Reader{}.Read(p) }
